@@ -363,6 +363,22 @@ func errClass(err error) string {
 	return "err"
 }
 
+// quiesce waits until the directory tree stops changing. LoadOutputs returns on the first failing output while the
+// restores of other outputs (and the download goroutines of a failed directory restore) may still be running; a real
+// follow-up build is a new process, so the harness lets such leftovers finish before the next step.
+func quiesce(dir string) {
+	prev := ""
+	for i := 0; i < 40; i++ {
+		l, _ := listing(dir)
+		cur, _ := jsonString(l)
+		if i > 0 && cur == prev {
+			return
+		}
+		prev = cur
+		time.Sleep(25 * time.Millisecond)
+	}
+}
+
 // withTimeout runs f and reports "hang" if it does not return in time (the goroutine is abandoned).
 func withTimeout(d time.Duration, f func() error) (err error, hung bool) {
 	done := make(chan error, 1)
@@ -1455,9 +1471,11 @@ func init() {
 					switch {
 					case hung:
 						r["outcome"] = "hang"
+						quiesce(env.ws)
 					case rerr != nil:
 						r["outcome"] = "err"
 						r["msg"] = rerr.Error()
+						quiesce(env.ws)
 					default:
 						r["outcome"] = "ok"
 						equal := true
